@@ -24,16 +24,18 @@ Definition plain_example : schema :=
   Sch [TObject (s "Query") (Some (s "The root")) [s "Node"]
          [SF (s "id") (s "id") [] (RNonNull (RNamed (s "ID"))) (Some (s "the id")) None [];
           SF (s "e") (s "e")
-             [SIV (s "x") (s "x") (RList (RNonNull (RNamed (s "In")))) None (Some (s "the x, described")) [];
+             [SIV (s "x") (s "x") (RList (RNonNull (RNamed (s "In")))) None (Some (s "the ""x"", described")) [];
               SIV (s "n") (s "n") (RNamed (s "Int")) (Some (PInt 5)) None [tag_dir 1];
               SIV (s "es") (s "es") (RList (RNamed (s "E"))) (Some (PList [PStr (s "A"); PNone])) None [];
               SIV (s "i") (s "i") (RNamed (s "In")) (Some (PDict [(s "n", PInt 7); (s "t", PStr [104; 10; 34]%N)])) None []]
              (RNamed (s "E")) (Some [116; 119; 111; 10; 108; 105; 110; 101; 115]%N) (Some (s "old")) [tag_dir 2]] [tag_dir 3];
-       TInterface (s "Node") None [SF (s "id") (s "id") [] (RNonNull (RNamed (s "ID"))) None None []] [];
+       TInterface (s "Node") (Some (s "ends with a ""quote""")) [SF (s "id") (s "id") [] (RNonNull (RNamed (s "ID"))) None None []] [];
        TEnum (s "E") (Some [116; 119; 111; 10; 108; 105; 110; 101; 115; 92; 10; 10; 101; 110; 100]%N)
              [SEV (s "A") (PStr (s "A")) (Some (s "first value")) (Some default_deprecation) [tag_dir 4];
-                           SEV (s "B") (PStr (s "B")) (Some [98; 92]%N) None []] [];
-       TUnion (s "U") None [s "Query"] [];
+                           SEV (s "B") (PStr (s "B")) (Some [98; 92]%N) None [];
+                           SEV (s "C") (PStr (s "C")) (Some (s "two ""lines""
+with """"""triple"""""" and a final """)) None []] [];
+       TUnion (s "U") (Some (s "say ""hi"", then """"""triple"""""" quotes, here")) [s "Query"] [];
        TInput (s "In") None [SIV (s "n") (s "n") (RNamed (s "Int")) (Some (PInt 1)) (Some (s "how many")) [];
                              SIV (s "t") (s "t") (RNamed (s "String")) (Some (PStr (s "x"))) None []] [];
        TScalar (s "Date") None [tag_dir 5]]
@@ -65,7 +67,13 @@ Ltac desc_ok_tac :=
         | apply desc_ok_single_line;
           [reflexivity|vm_compute; reflexivity|vm_compute; reflexivity|vm_compute; lia|vm_compute; discriminate
           |apply source_chars_b; vm_compute; reflexivity]
+        | apply desc_ok_single_line_quotes;
+          [reflexivity|vm_compute; reflexivity|vm_compute; reflexivity|vm_compute; lia|vm_compute; discriminate|vm_compute; discriminate
+          |apply source_chars_b; vm_compute; reflexivity]
         | apply desc_ok_block;
+          [reflexivity|discriminate|vm_compute; reflexivity|vm_compute; reflexivity|vm_compute; discriminate
+          |vm_compute; discriminate|vm_compute; first [lia|right; right; reflexivity]|apply source_chars_b; vm_compute; reflexivity]
+        | apply desc_ok_block_quotes;
           [reflexivity|discriminate|vm_compute; reflexivity|vm_compute; reflexivity|vm_compute; discriminate
           |vm_compute; discriminate|vm_compute; first [lia|right; right; reflexivity]|apply source_chars_b; vm_compute; reflexivity] ].
 
@@ -74,7 +82,13 @@ Ltac desc_okd_tac :=
         | apply desc_okd_single_line;
           [reflexivity|vm_compute; reflexivity|vm_compute; reflexivity|vm_compute; lia|vm_compute; lia
           |vm_compute; discriminate|apply source_chars_b; vm_compute; reflexivity]
+        | apply desc_okd_single_line_quotes;
+          [reflexivity|vm_compute; reflexivity|vm_compute; reflexivity|vm_compute; lia|vm_compute; lia
+          |vm_compute; discriminate|vm_compute; discriminate|apply source_chars_b; vm_compute; reflexivity]
         | apply desc_okd_block;
+          [reflexivity|discriminate|vm_compute; reflexivity|vm_compute; reflexivity|vm_compute; reflexivity
+          |vm_compute; discriminate|vm_compute; discriminate|vm_compute; first [lia|right; right; reflexivity]|apply source_chars_b; vm_compute; reflexivity]
+        | apply desc_okd_block_quotes;
           [reflexivity|discriminate|vm_compute; reflexivity|vm_compute; reflexivity|vm_compute; reflexivity
           |vm_compute; discriminate|vm_compute; discriminate|vm_compute; first [lia|right; right; reflexivity]|apply source_chars_b; vm_compute; reflexivity] ].
 
